@@ -157,6 +157,42 @@ theorem c02_conformant_sender (c : RCfg) (hb : 0 < c.b) (hw1 : 1 ≤ c.w) (hw : 
     exact (blk_length_lt_iff c.b hb f _ (by omega) key.2).mp hshort
   rw [hcont, key.1, blocks_flatten, hfin, take_all_blocks c.b hb f]
 
+/-- what a `UdpSocket`'s `recv_with_size(blk_size)` hands to the worker: the datagram read into `blk_size + 4` bytes, i.e. a DATA payload
+longer than the block size is cut to it (a peer that ignores what it acknowledged; the kernel's truncation is assumed, section 10.6) -/
+def REv.cut (b : Nat) : REv → REv
+  | .data n p => .data n (p.take b)
+  | e => e
+
+/-- **over-long DATA is cut, never stored in excess**: whatever the peer sends, every block the receiver accepts and stores has at most
+block-size bytes (so a file of k accepted blocks is at most k·b bytes long, and an over-long block counts as a full one) -/
+theorem c02_oversize_data_is_cut (c : RCfg) (hw1 : 1 ≤ c.w) (hw : c.w < 65536) (evs : List REv) :
+    ∀ p ∈ (rRun c (evs.map (REv.cut c.b))).2.accepted, p.length ≤ c.b := by
+  unfold rRun
+  have key : ∀ (es : List REv) (s : RState), RInv c s → (∀ p ∈ s.accepted, p.length ≤ c.b) →
+      ∀ p ∈ (rRunFrom c s (es.map (REv.cut c.b))).2.accepted, p.length ≤ c.b := by
+    intro es
+    induction es with
+    | nil => intro s _ h; simpa [rRunFrom] using h
+    | cons e es ih =>
+      intro s hinv h
+      simp only [List.map_cons, rRunFrom]
+      obtain ⟨hinv', _, hacc⟩ := rStep_good c hw s hinv (REv.cut c.b e)
+      refine ih _ hinv' ?_
+      rcases hacc with hacc | ⟨n, p, hev, _, hacc⟩
+      · rw [hacc]; exact h
+      · rw [hacc]
+        intro q hq
+        simp only [List.mem_cons] at hq
+        rcases hq with rfl | hq
+        · cases e with
+          | data n' p' =>
+            simp only [REv.cut, REv.data.injEq] at hev
+            rw [← hev.2]; simp [List.length_take]; omega
+          | error => simp [REv.cut] at hev
+          | fail => simp [REv.cut] at hev
+        · exact h q hq
+  exact key evs (rInit c) (rInit_inv c hw1) (by simp [rInit])
+
 /-! non-vacuity: a reachable successful state with duplicates and a stray failure on the way -/
 example : (rRun { b := 2, w := 2, rep := 1, cleanOnError := true }
     [.data 1 [1, 2], .data 1 [1, 2], .fail, .data 2 [3, 4], .data 3 [5]]).2.status = .ok := by decide
